@@ -162,3 +162,73 @@ SPEC = PropSpec(
     stubs=["vf/simos.py"],
     technique="CrossHair/z3 bounded symbolic execution over a deterministic simulation of the real worker code",
 )
+
+
+# ---------------------------------------------------------------------------------------------
+# "WorkerClosedError after close/death": the worker dies on its own (its target raises, or its child process is killed) and the
+# parent has not asked is_alive()/wait() since; the next enqueue must be refused, not swallowed
+def h_death(kind, cause, npre, pause, reads):
+    with notrace():
+        kind_ = 3 + conc(kind, 3)
+        cause_, npre_, pause_, reads_ = conc(cause, 2), conc(npre, 3), conc(pause, 2), conc(reads, 2)
+        name = wsim.KIND_NAMES[kind_]
+        ev("c05.death", name, cause_, npre_, pause_, reads_)
+        if cause_ == 1 and wsim.is_thread_kind(kind_):
+            return Outcome(None, False)
+        T.reset()
+        W = wsim.World(server=wsim.is_remote_kind(kind_))
+        try:
+            sig = _run_death(W, kind_, cause_, npre_, pause_, reads_)
+        except Hang:
+            sig = "c05.death.blocks-forever"
+        finally:
+            errs = W.close()
+            if errs:
+                raise RuntimeError("simulation kernel errors: %r" % (errs,))
+        return Outcome(None if sig is None else "%s|%s|%s" % (sig, ["target-raised", "child-killed"][cause_], name), True)
+
+
+def _run_death(W, kind, cause, npre, pause, reads):
+    s = W.sim
+    w = W.make(kind, T.item, args=[0, 7])         # item(i, poison=7): raises on input 7
+    for i in range(npre):
+        w.enqueue(i)
+    got = []
+    if cause == 0:
+        w.enqueue(7)
+        if reads:
+            got = list(w.results_iter())          # ends at the end marker the dying worker wrote
+            if got != [("item", i) for i in range(npre)]:
+                return "c05.death.wrong-results-before-the-failure"
+    else:
+        if reads:
+            got = list(w.results_iter(maxitems=npre))
+        pr = s.procs.get(w.pid)
+        if pr is None:
+            return None
+        pr._sigkill()
+    s.sleep(1 + 2 * pause)
+    for attempt in (1, 2):
+        try:
+            w.enqueue(99)
+        except WorkerClosedError:
+            continue
+        except (Hang, Killed):
+            raise
+        except Exception as e:  # noqa
+            return "c05.death.enqueue-raises-%s" % type(e).__name__
+        return "c05.death.enqueue-%d-accepted-by-a-dead-worker" % attempt
+    if not w.wait(timeout=10):
+        return "c05.death.wait-false-on-dead-worker"
+    return None
+
+
+H_DEATH = Harness(
+    "death", "vf.props.c05:h_death", OrderedDict([("kind", (0, 2)), ("cause", (0, 1)), ("npre", (0, 2)), ("pause", (0, 1)), ("reads", (0, 1))]),
+    tiers={"quick": {"partition": ["kind", "cause"], "timeout": 200, "twin_fixed": {"kind": 1, "cause": 0}},
+           "thorough": {"partition": ["kind", "cause"], "timeout": 200, "twin_fixed": {"kind": 1, "cause": 0}}},
+    functions=_FUNCS,
+)
+SPEC.harnesses.append(H_DEATH)
+SPEC.assumptions.append("harness 'death': the worker dies on its own (poison input / SIGKILL of its child) after 0-2 answered inputs; the parent reads the "
+                        "stream or not, lets 1 or 3 model seconds pass and enqueues twice without having called is_alive() or wait() since")
